@@ -10,8 +10,10 @@ OPS = [("signblob", [""]), ("signvar", [""]), ("writevar", ["db", "OsIndications
        ("signimage", ["synthetic", "synthetic-signed", "fixture"]), ("verifyimage", ["synthetic-signed", "fixture-signed"])]
 
 
-def scen(sid, api, variant, k, kind="error"):
+def scen(sid, api, variant, k, kind="error", persist=False):
     s = {"sc": sid, "api": api, "k": k, "kind": kind}
+    if persist:
+        s["persist"] = True
     if api in ("writevar", "legacywrite", "signedupdate", "readvar", "legacyread"):
         s["var"] = variant
     else:
@@ -39,6 +41,8 @@ def run(c):
         for k, d in enumerate(deps, 1):
             a, v = s["api"], s.get("var", s.get("variant"))
             runs.append(scen("%s/%s/%d" % (a, v, k), a, v, k))
+            if k < len(deps):     # the dependency stays broken: the calls made after the fault (cleanup) fail as well
+                runs.append(scen("%s/%s/%d-persist" % (a, v, k), a, v, k, persist=True))
             if d == "file.Write":
                 runs.append(scen("%s/%s/%d-short" % (a, v, k), a, v, k, "short"))
             if d == "readerat.ReadAt":
@@ -57,7 +61,7 @@ def run(c):
             e = {k: v for k, v in e.items() if k not in ("sc", "panic", "ev", "ncalls")}
             events.append(e); owner.append(s["sc"])
         if s["k"] > 0:
-            c.nontrivial([s["api"], s.get("var", s.get("variant")), s["k"], s["kind"]])
+            c.nontrivial([s["api"], s.get("var", s.get("variant")), s["k"], s["kind"], bool(s.get("persist"))])
     rej = c.validate_traces("DepFaultsTrace", "DepFaultsTrace.cfg", events)
     byid = {s["sc"]: s for s in allsc}
     seen = {}
@@ -89,7 +93,7 @@ def run(c):
     c.cov["exhaustive"] = True
     c.cov["rule"] = ("for each operation (sign blob / variable / image, write variable [object + legacy], signed update, read variable [object + legacy], parse / hash / sign / "
                      "verify image over synthetic and repository images, signed and unsigned) a fault-free run reveals its dependency-call sequence; then EVERY position k is "
-                     "failed once (error; short count for Write as well); recorded dependency calls + result validated by spec/DepFaultsTrace.tla. non-trivial = k > 0; distinct by (operation, variant, k, kind)")
+                     "failed once (error; short count for Write, short count + EOF for ReadAt as well; and 'from this call on every call fails', i.e. several faults in one run); recorded dependency calls + result validated by spec/DepFaultsTrace.tla. non-trivial = k > 0; distinct by (operation, variant, k, kind)")
     for s in runs[:2] + runs[-1:]:
         c.sample(s)
     # canary: claim success after a fault
@@ -103,7 +107,7 @@ def run(c):
     if not done or not c.validate_traces("DepFaultsTrace", "DepFaultsTrace.cfg", can, name="canary"):
         raise vf.FrameworkError("canary: success after a fault accepted")
     c.cov["canary_rejected"] = True
-    c.assumptions += ["single fault per run", "io.ReaderAt faults are errors (a short read without error would violate the io.ReaderAt contract itself)"]
+    c.assumptions += ["one first fault per run, alone or followed by the failure of every later call", "io.ReaderAt faults are errors (a short read without error would violate the io.ReaderAt contract itself)"]
 
 
 if __name__ == "__main__":
